@@ -11,9 +11,11 @@ same supertype throughout (`OneSuper`; features may be spread over the declarati
 supertype by a later input, …), any two orders of the declarations either both fail or both succeed, and then yield the
 same types with the same supertypes, children and effective features (`SameHier`).
 
-The remaining part of the property's claim — a type declared with *different* supertypes of which one subsumes the other,
-the competing supertypes being declared identically everywhere — involves the re-parenting branch and is still checked by
-enumeration on implementation and model (finding M6 lies just outside its hypothesis).
+`merge_perm_leaf_compete` (proposed): the same when names are declared with *different* supertypes, as long as such names
+have no declared subtypes, their supertypes are not final and the document annotation type is declared where a fresh type
+system has it.  What remains checked by enumeration only: a name with competing supertypes that has declared subtypes
+(the re-parenting of a whole subtree), every other name being declared with one supertype; finding M6 lies just outside
+that.
 -/
 import CassisModel.Proofs.MergePerm
 
@@ -31,4 +33,38 @@ theorem merge_perm_one_super (decls decls' : List Decl) (hp : decls.Perm decls')
     | _, _ => False :=
   merge_perm_one_super_aux decls decls' hp hc hu h1
 
+/-- **Proposed extension: competing supertypes on leaves.**  Names may be declared with different supertypes (the merge
+    then moves the type below the most specific one, or raises `ValueError` if two of them are incomparable), provided
+
+    * `LeafCompete`: a name declared with competing supertypes has no declared subtype.  Hence every declared supertype —
+      every competing supertype and each of its ancestors — is declared with one supertype throughout, sits at its final
+      place as soon as it is registered, and `subsumes` on the partially merged tree agrees with the final tree.  This is
+      what excludes finding M6 ("merge success depends on order when an ancestor of a competing supertype is itself
+      pending"): its witness has `x.C` declared below `uima.cas.TOP` and below `uima.tcas.Annotation` *and* as the
+      supertype of `x.B`, a competing supertype of `x.A`.
+    * `CompeteNonFinal`: no competing supertype is inheritance final.  Needed: `[x.X < uima.cas.ArrayBase,
+      x.X < uima.cas.IntegerArray]` merges in this order (the re-parenting branch does not check finality) and raises in
+      the other (`create_type` does), evaluated in `Proofs/MergePermXDemo.lean` (`demoFinal`).  Not reachable through the
+      API, which refuses to create a type below a final one.
+    * `BaseAgree`: the document annotation type is declared, if at all, below `uima.tcas.Annotation` (where a fresh type
+      system has it).  A simplification of the proof, not known to be needed (`merge_perm_one_super` covers the document
+      annotation type declared elsewhere, without competing supertypes).
+
+    Enumeration over small pools (all permutations of up to five declarations) found no order dependence either when the
+    name with competing supertypes has declared subtypes while every *other* name is declared with one supertype; the
+    leaf condition is what the proof needs (only a leaf is re-parented, so `FeatInv` after re-parenting a subtree is not
+    required), not a known boundary of the property. -/
+theorem merge_perm_leaf_compete (decls decls' : List Decl) (hp : decls.Perm decls')
+    (hc : ClosedDecls Gen.consts decls) (hu : UserDecls Gen.consts decls) (hb : BaseAgree decls)
+    (hl : LeafCompete decls) (hnf : CompeteNonFinal Gen.consts decls) :
+    match mergeDecls Gen.consts Gen.builtinTS decls, mergeDecls Gen.consts Gen.builtinTS decls' with
+    | .ok ts, .ok ts' => SameHier ts ts'
+    | .error _, .error _ => True
+    | _, _ => False :=
+  merge_perm_leaf_compete_aux decls decls' hp hc hu hb hl hnf
+
 end Cassis.TS
+
+#print axioms Cassis.TS.merge_perm_one_super
+#print axioms Cassis.TS.merge_perm_leaf_compete
+#print axioms Cassis.TS.merge_grouping
